@@ -225,6 +225,14 @@ func genSchema(r *hx.Rand) SchemaSpec {
 		s.Types = append(s.Types, m)
 		s.Mutation = "Mutation"
 	}
+	// the subscription root is independent of the mutation root (all four combinations occur)
+	if r.Chance(1, 3) {
+		sub := TypeSpec{Kind: "object", Name: "Subscription"}
+		sub.Fields = append(sub.Fields, FieldSpec{Name: "changed", Type: wrapType(r, hx.Pick(r, composite), true), HasArg: r.Bool()})
+		sub.Fields = append(sub.Fields, FieldSpec{Name: "tick", Type: wrapType(r, hx.Pick(r, leafTypes), true)})
+		s.Types = append(s.Types, sub)
+		s.Subscription = "Subscription"
+	}
 	return s
 }
 
@@ -623,7 +631,24 @@ func genDoc(r *hx.Rand, spec *SchemaSpec, opName, prefix string, fragSeq *int, c
 		if spec.Mutation != "" && r.Chance(1, 4) {
 			kind, root = "mutation", spec.Mutation
 		}
+		if spec.Subscription != "" && collide == "" && r.Chance(1, 3) {
+			kind, root = "subscription", spec.Subscription
+		}
 		sels := g.selSet(root, 0, newScope())
+		if kind == "subscription" {
+			// a subscription operation has exactly one root field (sometimes inside `... on Subscription`)
+			var one []Sel
+			for _, s := range sels {
+				if s.Kind == "f" && s.Name != "__typename" {
+					one = []Sel{s}
+					break
+				}
+			}
+			if one != nil && r.Chance(1, 4) {
+				one = []Sel{{Kind: "i", Cond: root, Sels: one}}
+			}
+			sels = one
+		}
 		if len(sels) == 0 || (collide != "" && !g.usedCollide && attempt < 30) {
 			continue
 		}
